@@ -1337,6 +1337,24 @@ M.contract('exactly_lib.execution.impl.single_instruction_executor:execute_eleme
            }, raises_only=())
 
 
+# ------------------------------------------------------------------------------ "Cleanup still runs, the sandbox is removed"
+# A step that ends in HARD_ERROR because of a timeout is an ordinary failing step for the phase machinery.  That
+# [cleanup] runs exactly once after ANY failing step once the sandbox exists is proved for C01 (executor.execute and
+# every layer below it), and that the sandbox is removed on every outcome for C04 (execution.execute).  Those
+# contracts carry C19 too: this check re-proves them on the current tree.
+
+def _cleanup_and_removal_after_a_timeout():
+    from contracts.common import share_contracts
+    from contracts import C01_protocol as c01
+    layers = (c01.P_EX + ':', c01.P_PSE + ':', c01.P_SIE + ':', c01.P_AH + ':', c01.P_AX + ':')
+    share_contracts('C19', 'contracts.C01_protocol', lambda q: q.startswith(layers))
+    share_contracts('C19', 'contracts.C04_sandbox',
+                    lambda q: q == 'exactly_lib.execution.partial_execution.execution:execute')
+
+
+M.after_load = _cleanup_and_removal_after_a_timeout
+
+
 # ------------------------------------------------------------------------------ completeness of the list of sites
 
 def _settings_references(tree):
